@@ -2,13 +2,15 @@ module github.com/flamego/flamego/verifharness
 
 go 1.19
 
-require github.com/flamego/flamego v0.0.0
+require (
+	github.com/charmbracelet/log v0.4.1
+	github.com/flamego/flamego v0.0.0
+)
 
 require (
 	github.com/alecthomas/participle/v2 v2.1.4 // indirect
 	github.com/aymanbagabas/go-osc52/v2 v2.0.1 // indirect
 	github.com/charmbracelet/lipgloss v1.0.0 // indirect
-	github.com/charmbracelet/log v0.4.1 // indirect
 	github.com/charmbracelet/x/ansi v0.4.2 // indirect
 	github.com/go-logfmt/logfmt v0.6.0 // indirect
 	github.com/lucasb-eyer/go-colorful v1.2.0 // indirect
